@@ -13,7 +13,7 @@
 
    cfF = one-off job with the repaired timer branch (the code after the fix: commit),
    cfU = one-off job as found in the pinned tree, cfP = periodic job. *)
-From Verif Require Import Lib.Base Lib.Sched Lib.Reach Model.C02_Scheduler Model.C02_Script Proofs.C02 Proofs.C02_Script.
+From Verif Require Import Lib.Base Lib.Sched Lib.Reach Model.C02_Scheduler Model.C02_Script Proofs.C02 Proofs.C02_Script Proofs.C02_ScriptExact.
 From Verif Require Import Check.C02 Proofs.C02_Check.
 
 (* never twice: under every schedule jobFunc of a one-off job is called at most once, and at most
@@ -294,6 +294,20 @@ Theorem C02_script_outcomes_never_twice :
     o_panic o = false /\ o_overlap o <= 1 /\ (sc_kind sc = OneOff -> (length (o_starts o) <= 1)%nat).
 Proof. exact script_never_twice. Qed.
 Print Assumptions C02_script_outcomes_never_twice.
+
+(* exactly once, never silently dropped, at script level (repaired code): in EVERY one-off script
+   -- any number of RunJob / CancelJob / context-cancel / re-schedule / JobExists calls at any
+   instants -- every state in which the script can end, over all interleavings, in which no
+   CancelJob has reported success, the parent context is alive, jobFunc is not in progress and the
+   job's time is not after the end of the script, has exactly one start of jobFunc *)
+Theorem C02_script_exactly_once :
+  forall sc, sc_kind sc = OneOff -> sc_variant sc = Fixed ->
+  forall t, In t (finals sc) ->
+    sc_due sc <= sc_end sc ->
+    cancel_ok (t_core t) = false -> ctx_done (t_core t) = false -> running (t_core t) = 0 ->
+    length (t_starts t) = 1%nat.
+Proof. exact script_exactly_once. Qed.
+Print Assumptions C02_script_exactly_once.
 
 (* ... and therefore in every OBSERVED outcome that the correspondence check accepts *)
 Theorem C02_checked_observation_never_twice :
